@@ -156,6 +156,9 @@ def run(ctx):
     bodies = [b for b in ctx.all_bodies(core) if b.file.endswith("error/mod.rs") and not common.scan.is_test_body(b)]
     n = common.acc_typestate(ctx, "C05.T.no-live-drop", bodies)
     ctx.floor("C05.T", "functions of error/mod.rs holding an accumulator", n, 8)
+    if ctx.tier == "thorough":
+        from . import witness
+        witness.run_witnesses(ctx, "C05")
     return ctx.finish(
         explanation="Static decision of the accumulator's typestate and guarded-action shape on darling_core's MIR: signatures (self by value / &mut), "
                     "absence of Clone/Copy, privacy of the inner Option, path conditions of every Ok/Err/Some/None/push/panic site, and rule T (no live drop).",
